@@ -175,6 +175,7 @@ impl Pipeline {
 
         // Build a chain: operators push to each other, final one pushes to sink
         let mut current_chunk = chunk;
+        let mut stop = false;
         let num_operators = self.operators.len();
 
         for i in 0..num_operators {
@@ -182,16 +183,20 @@ impl Pipeline {
 
             if is_last {
                 // Last operator pushes to the real sink
-                return self.operators[i].push(current_chunk, &mut *self.sink);
+                let cont = self.operators[i].push(current_chunk, &mut *self.sink)?;
+                return Ok(cont && !stop);
             }
 
             // Intermediate operators collect output
             let mut collector = ChunkCollector::new();
             let continue_processing = self.operators[i].push(current_chunk, &mut collector)?;
 
-            if !continue_processing || collector.is_empty() {
-                return Ok(continue_processing);
+            // An operator that asks to stop (a satisfied LIMIT) may still have produced
+            // output with this very call: forward it before stopping.
+            if collector.is_empty() {
+                return Ok(continue_processing && !stop);
             }
+            stop |= !continue_processing;
 
             // Merge collected chunks for next operator
             current_chunk = collector.into_single_chunk();
@@ -233,25 +238,31 @@ impl Pipeline {
     /// Push a chunk through operators starting at index.
     fn push_through_from(&mut self, chunk: DataChunk, start: usize) -> Result<bool, OperatorError> {
         let mut current_chunk = chunk;
+        let mut stop = false;
 
         for i in start..self.operators.len() {
             let is_last = i == self.operators.len() - 1;
 
             if is_last {
-                return self.operators[i].push(current_chunk, &mut *self.sink);
+                let cont = self.operators[i].push(current_chunk, &mut *self.sink)?;
+                return Ok(cont && !stop);
             }
 
             let mut collector = ChunkCollector::new();
             let continue_processing = self.operators[i].push(current_chunk, &mut collector)?;
 
-            if !continue_processing || collector.is_empty() {
-                return Ok(continue_processing);
+            // An operator that asks to stop (a satisfied LIMIT) may still have produced
+            // output with this very call: forward it before stopping.
+            if collector.is_empty() {
+                return Ok(continue_processing && !stop);
             }
+            stop |= !continue_processing;
 
             current_chunk = collector.into_single_chunk();
         }
 
-        self.sink.consume(current_chunk)
+        let cont = self.sink.consume(current_chunk)?;
+        Ok(cont && !stop)
     }
 }
 
